@@ -150,7 +150,10 @@ META["C05"] = dict(
          "hook points): C05_pools_view_invariant (with the code's locking, for every interleaving of writers, readers and flushers no "
          "flush section changes any bucket's view and a read returns the view at its info section), C05_pools_section_effect, and decide "
          "witnesses for the two seeded defects that lived there (flushLock taken after the swap: a completed update lost for good; a "
-         "reader skipping the pools: stale value). "
+         "reader skipping the pools: stale value), C05_pools_read_your_writes, C05_pools_refines_conc_run (the pool layer implements "
+         "Conc's atomic index sections: every flush section is a stutter), and the primary's pools (C05_pools_primary_write_once / _get: "
+         "an allocated location keeps its record across any number of flushes; never EOF, never another record). Real schedules are "
+         "replayed on this model too. "
          "Non-interference INSIDE one bucket's record list is C08's frame theorems.",
     note=SCHED_NOTE,
 )
@@ -289,8 +292,11 @@ META["C10"] = dict(
          "the legacy contents minus freed records returns), C10_upgrade_reads, C10_upgrade_records_whole (numbered files = chunks of the "
          "legacy records, every non-freed record byte-identical, sizes = chunkFileSizes, every bucket reads its current legacy list with "
          "offsets remapped by remapOffset and every entry resolves to the record it named), C10_upgrade_fsck (fsck clean on the upgraded "
-         "directory and after every later run). Out of the theorems' scope, handled by the model and the runs: unmappable entries, torn "
-         "tails, a bit size different from the legacy header's. Resume: C10_upgrade_resume_partial (interrupted after the primary phase or "
+         "directory and after every later run). Unmappable entries (Sth/Props/C10c.lean): C10_upgrade_contents_bad (multi-chunk stores with entries whose offset lies "
+         "beyond the legacy primary: for EVERY flush order of the removal pool the upgraded store refines the map with those keys absent, "
+         "fsck clean, also after reopen), C10_upgrade_bad_single (single-chunk stores: nothing is remapped, the entries stay, every "
+         "well-formed key still reads its legacy value or absent; fsck clean when exactly those offsets are ignored). Out of the theorems' "
+         "scope, handled by the model and the runs: torn tails, a bit size different from the legacy header's. Resume: C10_upgrade_resume_partial (interrupted after the primary phase or "
          "after the index is chunked - old file already removed or still present - reopening ends in the same memory state and the same "
          "directory file by file), C10_completed_opens_plainly; the full 'interrupted at ANY step' claim is FALSE in the code = known "
          "finding D14, documented in the model by decide over the executable step list upgradeSteps: C10_D14_marker_window (the only "
